@@ -140,8 +140,13 @@ func recEnvOf(r *cdrType.CHFRecord) string {
 		return "-/-/0"
 	}
 	c := r.ChargingFunctionRecord
-	return fmt.Sprintf("%s/%s/%d", hexOf([]byte(c.RecordingNetworkFunctionID.Value)), hexOf(c.RecordOpeningTime.Value),
-		c.NFunctionConsumerInformation.NetworkFunctionality.Value)
+	// "e": the usage list is an empty but non-nil slice (a record the size guard has just started)
+	el := ""
+	if c.ListOfMultipleUnitUsage != nil && len(c.ListOfMultipleUnitUsage) == 0 {
+		el = "e"
+	}
+	return fmt.Sprintf("%s/%s/%d%s", hexOf([]byte(c.RecordingNetworkFunctionID.Value)), hexOf(c.RecordOpeningTime.Value),
+		c.NFunctionConsumerInformation.NetworkFunctionality.Value, el)
 }
 
 // recber createx <supi> <nf> <functionality> <v4> <v6> <fqdn> <mcc/mnc|~> <svcSpec> <reg> <pdu: ~ | x0|x1|x2 | cid/sid/sst/sd/dnn>
